@@ -677,5 +677,9 @@ PROPS["C01"]["explanation"] += " (ORIGINFIRST) Hseek takes no decision about the
 PROPS["C06"]["rules"] = PROPS["C06"]["rules"] + [rules_conv.rule_high_byte_by_shift]
 PROPS["C06"]["explanation"] += " (BYTEDIV) no byte of a file image is a signed quotient by 256/65536/2^24 (shifts are used)."
 
+PROPS["C05"]["rules"] = PROPS["C05"]["rules"] + [rules_loops.rule_cursor_advanced_by_copy, rules_coders.rule_difference_length_guarded]
+PROPS["C05"]["explanation"] += " (CURSORADV) a buffer cursor is advanced by the bytes just copied through it. (POSLEN) a coder flush whose length is a difference is made only when the difference is positive."
+PROPS["C01"]["rules"] = PROPS["C01"]["rules"] + [rules_loops.rule_cursor_advanced_by_copy]
+
 NOT_APPLICABLE = {}
 
